@@ -374,6 +374,12 @@ class _Interp:
                 'cardinality': len(rows), 'full': rows, 'full_lineage': lins, 'keys': None}
 
     def query(self, node) -> dict:
+        if node['src']['t'] in ('set', 'query'):
+            # a statement queried directly (not through a reference): only the plain select-all is given a meaning here
+            if node.get('select') or node.get('where') is not None or node.get('groupby') or node.get('having') is not None \
+                    or node.get('orderby') or node.get('limit') is not None:
+                raise ValueError('only a plain select-all directly over a statement is supported')
+            return self.statement(node['src'])
         rel = self.origin(node['src'])
         scope = A.scope_of(node['src'])
         ev = _Eval(scope)
